@@ -677,6 +677,154 @@ def _check_formula(case):
     return None if ok else '%s = %r, the cells of the combined reference sum to %r' % (text, got, want)
 
 
+# ---- nested reference expressions: operators applied to the results of operators, with values ------------------------
+def _nested_tree(rng, R, depth):
+    if depth == 0 or rng.random() < 0.25:
+        return ('leaf', rng.choice(R))
+    return (rng.choice(['and', 'add', 'or', 'sub', 'and', 'add']), _nested_tree(rng, R, depth - 1), _nested_tree(rng, R, depth - 1))
+
+
+def _nested_cases(tier, rng):
+    R = _rects(4)
+    out = []
+    singles = [x for x in R if x[:2] == x[2:]]
+    # the family (P Q):S — the range operator applied to an intersection
+    for _ in range(1500 if tier == 'quick' else 20000):
+        out.append(('add', ('and', ('leaf', rng.choice(R)), ('leaf', rng.choice(R))), ('leaf', rng.choice(singles))))
+    for _ in range(2500 if tier == 'quick' else 60000):
+        t = _nested_tree(rng, R, 2 if rng.random() < 0.7 else 3)
+        if t[0] != 'leaf':
+            out.append(t)
+    return out
+
+
+def _tree_text(t):
+    if t[0] == 'leaf':
+        return _name(t[1])
+    return '(%s %s %s)' % (_tree_text(t[1]), {'and': '&', 'add': ':', 'or': ',', 'sub': '-'}[t[0]], _tree_text(t[2]))
+
+
+class _Empty(Exception):
+    pass
+
+
+def _nested_spec(t):
+    """-> (areas, loose): areas = list of {cell: value or None (not settled by the statement)}; loose = the split into
+    areas is not settled (a difference was taken), only the covered cells are."""
+    if t[0] == 'leaf':
+        return [{c: _val(*c) for c in _cells(t[1])}], False
+    (A, la), (B, lb) = _nested_spec(t[1]), _nested_spec(t[2])
+    loose = la or lb
+    if t[0] == 'and':
+        out = []
+        for y in B:
+            for x in A:
+                common = set(x) & set(y)
+                if common:
+                    out.append({c: (x[c] if x[c] is not None else y[c]) for c in common})
+        return out, loose
+    if t[0] == 'or':
+        return A + B, loose
+    if t[0] == 'add':
+        cells = [c for x in A + B for c in x]
+        if not cells:
+            raise _Empty()
+        box = (min(c for c, r in cells), min(r for c, r in cells), max(c for c, r in cells), max(r for c, r in cells))
+        area = {c: None for c in _cells(box)}
+        for x in A + B:
+            for c, v in x.items():
+                if v is not None:
+                    area[c] = v
+        return [area], False
+    if t[0] == 'sub':
+        gone = {c for y in B for c in y}
+        keep = {}
+        for x in A:
+            for c, v in x.items():
+                if c not in gone:
+                    keep[c] = v if keep.get(c) is None else keep[c]
+        return ([keep] if keep else []), True
+    raise ValueError(t)
+
+
+def _nested_eval(t):
+    if t[0] == 'leaf':
+        return _mkr((t[1],))
+    a, b = _nested_eval(t[1]), _nested_eval(t[2])
+    if not a.ranges or not b.ranges:
+        raise _Empty()          # an operator applied to the empty reference (#NULL!): not settled by the statement
+    return {'and': lambda: a & b, 'add': lambda: a + b, 'or': lambda: a | b, 'sub': lambda: a - b}[t[0]]()
+
+
+def _has_inner_range_op(t, top=True):
+    """The expression applies an operator to the result of a range operator (:)."""
+    if t[0] == 'leaf':
+        return False
+    if t[0] == 'add' and not top:
+        return True
+    return _has_inner_range_op(t[1], False) or _has_inner_range_op(t[2], False)
+
+
+def _classify_nested(case, detail):
+    return 'KF-C06-2' if detail.startswith('gap-filler: ') else None
+
+
+def _check_nested(t):
+    import numpy as np
+    from formulas.tokens.operand import NULL
+    text = _tree_text(t)
+    try:
+        spec, loose = _nested_spec(t)
+        res = _nested_eval(t)
+    except _Empty:
+        return None
+    except Exception as ex:
+        return '%s raised %s: %s' % (text, type(ex).__name__, str(ex)[:80])
+    try:
+        got = [_area_cells(z) for z in res.ranges]
+        if loose:
+            gs, ws = {c for g in got for c in g}, {c for x in spec for c in x}
+            if gs != ws:
+                return '%s covers %r, expected %r' % (text, sorted(gs), sorted(ws))
+            if t[0] == 'sub' and len([c for g in got for c in g]) != len(gs):
+                return '%s covers a cell twice' % text
+            return None
+        want = [sorted(x, key=lambda c: (c[1], c[0])) for x in spec]
+        if got != want:
+            return '%s has areas %r, expected %r' % (text, got, want)
+        v = res.value
+        if not want:
+            if not (v.shape == (1, 1) and v[0, 0] is NULL):
+                return 'empty reference %s has value %r, expected #NULL!' % (text, v.tolist())
+            return None
+        if len(want) == 1:
+            v = np.asarray(v, object)
+            c0, r0 = min(c for c, r in want[0]), min(r for c, r in want[0])
+            bad = [(c, r, v[r - r0, c - c0], spec[0][(c, r)]) for (c, r) in want[0]
+                   if spec[0][(c, r)] is not None and v[r - r0, c - c0] != spec[0][(c, r)]]
+            if bad:
+                c, r, x, e = bad[0]
+                filler = all(isinstance(b[2], str) and b[2] == '' for b in bad) and _has_inner_range_op(t)
+                return '%scell %s%d seen through %s shows %r, the cell holds %r' % (
+                    'gap-filler: ' if filler else '', 'ABCDEFG'[c - 1], r, text, x, e)
+        elif all(e is not None for x in spec for e in x.values()):
+            gotv = np.asarray(v, object).ravel().tolist()
+            exp = [e for x in spec for e in x.values()]
+            gi, ei = sorted(x for x in gotv if x != ''), sorted(exp)
+            if len(gotv) != len(exp) or sorted(map(repr, gotv)) != sorted(map(repr, exp)):
+                import collections
+                missing = collections.Counter(ei) - collections.Counter(gi)
+                extra = collections.Counter(gi) - collections.Counter(ei)
+                filler = (len(gotv) == len(exp) and not extra and sum(missing.values()) == gotv.count('')
+                          and _has_inner_range_op(t))
+                return '%svalues of %s are %r, each cell once per covering area gives %r' % (
+                    'gap-filler: ' if filler else '', text, gotv, sorted(exp))
+    except Exception as ex:
+        return 'value of %s raised %s: %s' % (text, type(ex).__name__, str(ex)[:80])
+    return None
+
+
+
 BOUNDED = [
     Stage('B1:reference-operators-on-a-small-grid', 'C06', _ops_cases, _check_ops,
           'intersection, range, union and difference for every 3rd (quick) / every (thorough) ordered pair of rectangles of a 4x4 / 5x5 grid '
@@ -686,4 +834,8 @@ BOUNDED = [
     Stage('B1:reference-operators-in-formulas', 'C06', _formula_cases, _check_formula,
           '=SUM(a op b) for random rectangle pairs of a 3x3 grid and the three reference operators through Parser / compile (150 quick / 3000 thorough)',
           max_report=20),
+    Stage('B1:nested-reference-expressions', 'C06', _nested_cases, _check_nested,
+          'operators applied to the results of operators: (P Q):S for random rectangles P, Q and cells S of a 4x4 grid (1500 quick / 20000 '
+          'thorough) and random expression trees of depth 2-3 over & : , - (2500 / 60000): areas, covered cells and the values seen '
+          'position by position against finite cell maps', max_report=20, classify=_classify_nested),
 ]
